@@ -107,6 +107,9 @@ enum Step {
     ResetToStart,
     /// `nacked_log_ranges(StreamFrom::Frontier)`: must not change anything.
     ReadFrontier,
+    /// Several own-topic acks issued concurrently (joined futures) through clones of the same
+    /// `Acked` – the semaphore they share serialises the read-modify-write of the cursor.
+    ConcurrentAcks(Vec<(u8, u32)>),
 }
 
 #[derive(Clone, Debug, Serialize, Deserialize)]
@@ -159,6 +162,7 @@ fn check_acked(case: &AckedCase) -> CaseResult {
         let mut lower_after_higher = false;
         let mut own_acks = 0;
         let mut last_was_foreign_after_own = false;
+        let mut concurrent_batches = 0;
 
         for (i, step) in case.steps.iter().enumerate() {
             let before = flat(&acked0.cursor().await.map_err(|e| e.to_string())?);
@@ -194,6 +198,27 @@ fn check_acked(case: &AckedCase) -> CaseResult {
                         }
                     }
                 }
+                Step::ConcurrentAcks(acks) => {
+                    let headers: Vec<Header<Extensions>> =
+                        acks.iter().map(|(a, seq)| header(&authors[(*a % 3) as usize], own, *seq)).collect();
+                    let clones: Vec<Acked> = headers.iter().map(|_| acked0.clone()).collect();
+                    let results = futures_util::future::join_all(
+                        headers.iter().zip(&clones).map(|(h, acked)| async move { acked.ack(h).await }),
+                    )
+                    .await;
+                    for (k, r) in results.into_iter().enumerate() {
+                        r.map_err(|e| format!("concurrent own-topic ack {k} failed at step {i}: {e}"))?;
+                    }
+                    for (a, seq) in acks {
+                        let key = (authors[(*a % 3) as usize].verifying_key(), LogId::from_topic(own));
+                        let e = model.entry(key).or_insert(*seq);
+                        *e = (*e).max(*seq);
+                        own_acks += 1;
+                    }
+                    if acks.len() >= 2 {
+                        concurrent_batches += 1;
+                    }
+                }
                 Step::ResetToStart => {
                     acked0
                         .nacked_log_ranges(StreamFrom::Start)
@@ -225,6 +250,7 @@ fn check_acked(case: &AckedCase) -> CaseResult {
             .label_if(lower_after_higher, "lower_height_after_higher")
             .label_if(foreign_between_own, "foreign_ack_between_own_acks")
             .label_if(case.steps.iter().any(|s| matches!(s, Step::ResetToStart)), "has_reset")
+            .label_if(concurrent_batches > 0, "concurrent_acks_through_clones")
             .label_if(case.custom_name, "custom_cursor_name"))
     })
 }
@@ -234,7 +260,7 @@ fn seq() -> impl Strategy<Value = u32> {
 }
 
 pub fn run(mut ctx: Ctx) -> ! {
-    ctx.assume("two independent Acked instances acking concurrently under one cursor name are outside the quantifier (sequences, not schedules)");
+    ctx.assume("two *independent* Acked instances acking concurrently under one cursor name are outside the quantifier; concurrent acks through clones of one Acked (which share its semaphore) are generated");
     ctx.assume("StreamFrom::Start / StreamFrom::Cursor replace the cursor by documented design; only ack() is required to be monotone");
     ctx.run_prop(
         Part::new(
@@ -273,6 +299,7 @@ pub fn run(mut ctx: Ctx) -> ! {
                             .prop_map(|(author, topic, seq, clone)| Step::Ack { author, topic, seq, clone }),
                         1 => Just(Step::ResetToStart),
                         1 => Just(Step::ReadFrontier),
+                        3 => prop::collection::vec((0u8..3, seq()), 2..=5).prop_map(Step::ConcurrentAcks),
                     ],
                     1..=30,
                 ),
